@@ -79,6 +79,21 @@ impl Monitor for C16 {
             let id_free = pool_identifier.is_none() || pre.pool(&full_id).is_none();
             let must_reject = !(funds_exact && shape_ok && fees_ok && id_ok && id_free);
             c.stats.bump(if must_reject { "probe.c16.invalid_create" } else { "probe.c16.valid_create" });
+            // ---- every fee configuration is usable: a creation that meets every documented condition
+            // (and that the creator can pay for, with nothing injected or frozen) is accepted
+            if !out.ok() && !must_reject {
+                let affordable = funds.iter().all(|f| crate::world::bal(&pre.bal, sender, &f.denom) >= f.amount.u128());
+                let undisturbed = step.fault.is_none() && out.report.fault_fired == 0 && out.report.frozen_fired == 0 && crate::seams::get_frozen().is_empty();
+                if affordable && undisturbed {
+                    return Err(viol(
+                        "C16.valid_create_refused",
+                        format!(
+                            "creation meeting every documented condition (paid {:?} = needed {:?}, {n} assets, decimals {:?}) is refused: {}",
+                            paid, need, asset_decimals, out.err_text().rsplit(": ").next().unwrap_or("")
+                        ),
+                    ));
+                }
+            }
             if out.ok() && must_reject {
                 return Err(viol(
                     "C16.accepted_invalid",
